@@ -274,7 +274,13 @@ pub fn run(ctx: &mut Ctx) {
                 }
             }
             nul_case(ctx, &ls, compressed, kind, path, b.as_ref());
+            // texts that carry NUL characters themselves (a caller-terminated text, LFS's "\0caption\0text" button form):
+            // the field is still the encoded text, padded — nothing is cut on the way out
+            for t in ["abcd\0", "abc\0", "\0Your name\0Click to type", "first\0second", "a\0\0\0b", "\0", "ěš\0日本"] {
+                field_case(ctx, &ls, compressed, kind, path, b.as_ref(), t);
+            }
         }
     }
-    ctx.exhaustive_domains.push("every text field of every text-bearing kind x text lengths 0..2N (ASCII, and multi-codepage every 6th length) x both modes; NUL at 4 positions inside each field".into());
+    for n in [8usize, 64, 128, 240] { for t in ["abcd\0", "abc\0", "\0ab\0cd", "first\0second", "\0"] { helper_case(ctx, n, false, 0, t); helper_case(ctx, n, false, 4, t); } }
+    ctx.exhaustive_domains.push("every text field of every text-bearing kind x text lengths 0..2N (ASCII, and multi-codepage every 6th length) x both modes; NUL at 4 positions inside each field; seven texts that contain NUL characters".into());
 }
